@@ -71,6 +71,25 @@ int use(int a, int b, int c, int d)
 """
 
 
+# Qt connect() calls whose SIGNAL( ) / SLOT( ) argument lists run over several lines, the continuation lines starting inside the macro
+# with token pairs the Qt option override squeezes, written with wrong indentation (the first run moves them)
+QTCONN = """class K { public: void setup(QObject *view); };
+void K::setup(QObject *view)
+{
+    connect(&mapper, SIGNAL(mapped(int,
+  QString &)), view, SLOT(onChanged(int,
+          QString &)));
+    connect(a, SIGNAL(done(const char *,
+ int *, bool)), b, SLOT(fin(const char * ,
+                         int* , bool)));
+        connect(x, SIGNAL(valueChanged(QList<int> &
+   , int)),
+ y, SLOT(take(QList<int> &
+                 , int)));
+}
+"""
+
+
 def col1_reference(src, texts):
     """the input has a '//' comment in column 1 directly above an indented comment line, and the only thing the second run
     changed is that such comment lines (at most indent_comment_align_thresh = 3 columns from column 1 after the first run)
@@ -190,11 +209,11 @@ def run(ctx):
             srcs[jid] = (data, c.lang or corpus.lang_of(c.inp), open(p).read())
     # programs of the other checks: every profile
     gen = [("dense_C", hazard.DENSE["C"], "C"), ("dense_CPP", hazard.DENSE["CPP"], "CPP"), ("modprog_C", MODPROG["C"], "C"),
-           ("modprog_CPP", MODPROG["CPP"], "CPP"), ("spacey_C", SPACEY["C"], "C"), ("spacey_CPP", SPACEY["CPP"], "CPP"), ("macrocmt", MACROCMT, "C"), ("mlprog", MLPROG, "C")]
+           ("modprog_CPP", MODPROG["CPP"], "CPP"), ("spacey_C", SPACEY["C"], "C"), ("spacey_CPP", SPACEY["CPP"], "CPP"), ("macrocmt", MACROCMT, "C"), ("mlprog", MLPROG, "C"), ("qtconn", QTCONN, "CPP")]
     # the same programs typed with seeded irregular indentation and trailing blanks (c17.dirty): what the first run has to move
     from .c17 import dirty
     for name, t, lang in list(gen):
-        if name.startswith(("dense", "modprog", "mlprog")):
+        if name.startswith(("dense", "modprog", "mlprog", "qtconn")):
             for v in range(1 if quick else 3):
                 gen.append(("%s_dirty%d" % (name, v), dirty(ctx.rng, t), lang))
     # the programs of the pass-level modules (alignment of assignments, trailing comments, comments on their own lines): TLC emits
